@@ -148,8 +148,20 @@ Inductive cop :=
 
 Inductive stres := KPending | KEnd | KErr (a : activity) | KFuel.
 
+(* what a dispatch poll wrote into its link (successful writes), as a tap on the client's
+   transport end sees it; `sid` is the span id, named after the request id it was drawn for *)
+Inductive wmsg := WReq (id dl tr sid body : N) | WCancel (id tr sid : N).
+Definition wire_of (l : list (tcall Client.cmsg Client.resp)) : list wmsg :=
+  flat_map (fun c => match c with
+                     | CSend (Client.MReq id dl tc body) SOk =>
+                       [WReq id dl (trnum tc) (Client.tc_sid tc) body]
+                     | CSend (Client.MCancel id tc) SOk =>
+                       [WCancel id (trnum tc) (Client.tc_sid tc)]
+                     | _ => [] end) l.
+
 Inductive cobs :=
 | KCall (j : nat) (r : Client.cpoll)            (* a poll of head call j *)
+| KWire (i : nat) (l : list wmsg)               (* written by this dispatch poll *)
 | KDisp (i : nat) (r : Client.dpoll)
 | KCGauge (i : nat) (inflight timers : N)       (* RequestDispatch::verif_gauges of node i *)
 | KYield (i k : nat) (id dl tr body : N)        (* tr = 2 * trace_id + sampled *)
@@ -164,6 +176,7 @@ Inductive cobs :=
 
 Definition tr_cobs (i : nat) (o : Client.obs) : list cobs :=
   match o with
+  | Client.OCalls l => [KWire i (wire_of l)]
   | Client.ODisp r => [KDisp i r]
   | Client.OGauge a b => [KCGauge i a b]
   | Client.OPanic | Client.OSpin => [KPanic]
@@ -324,6 +337,7 @@ Definition poll_handler (i k : nat) (leaf : Server.hstep) (ch : chain) : chain *
 Definition is_event (o : cobs) : bool :=
   match o with
   | KCall _ Client.CPending | KCall _ Client.CNothing => false
+  | KWire _ [] => false
   | KDisp _ Client.DPending => false
   | KStream _ KPending => false
   | KHPolled _ _ | KExecPending _ _ => false
@@ -537,8 +551,16 @@ Definition stres_eqb (a b : stres) : bool :=
   | KErr x, KErr y => activity_eqb x y
   | _, _ => false
   end.
+Definition wmsg_eqb (a b : wmsg) : bool :=
+  match a, b with
+  | WReq a1 a2 a3 a4 a5, WReq b1 b2 b3 b4 b5 =>
+    N.eqb a1 b1 && N.eqb a2 b2 && N.eqb a3 b3 && N.eqb a4 b4 && N.eqb a5 b5
+  | WCancel a1 a2 a3, WCancel b1 b2 b3 => N.eqb a1 b1 && N.eqb a2 b2 && N.eqb a3 b3
+  | _, _ => false
+  end.
 Definition cobs_eqb (a b : cobs) : bool :=
   match a, b with
+  | KWire i l, KWire i' l' => Nat.eqb i i' && list_eqb wmsg_eqb l l'
   | KCall j r, KCall j' r' => Nat.eqb j j' && cpoll_eqb r r'
   | KDisp i r, KDisp i' r' => Nat.eqb i i' && dpoll_eqb r r'
   | KCGauge i x y, KCGauge i' x' y' => Nat.eqb i i' && N.eqb x x' && N.eqb y y'
@@ -574,8 +596,9 @@ Record mon := mkmon {
   mo_started : list (nat * nat);
   mo_ended : list (nat * nat);
   mo_tainted : bool;
-  mo_c04 : bool; mo_c18 : bool; mo_c07 : bool; mo_fuel : bool }.
-Definition mon0 : mon := mkmon 0 [] [] [] false true true true true.
+  mo_wire : list (nat * N * N * N);              (* requests seen on the links: node, id, tr, sid *)
+  mo_c04 : bool; mo_c18 : bool; mo_c07 : bool; mo_c18w : bool; mo_fuel : bool }.
+Definition mon0 : mon := mkmon 0 [] [] [] false [] true true true true true.
 
 Definition memp (p : nat * nat) (l : list (nat * nat)) : bool :=
   existsb (fun q => Nat.eqb (fst p) (fst q) && Nat.eqb (snd p) (snd q)) l.
@@ -594,44 +617,66 @@ Definition mon_op (m : mon) (o : cop) : mon :=
           (mo_calls m ++ [mkhc (mo_now m + d) (2 * tid + (if smp then 1 else 0)) body false])
           (mo_started m) (mo_ended m)
           (mo_tainted m || (Client.max_timeout_ms <? d)%N)
-          (mo_c04 m) (mo_c18 m) (mo_c07 m) (mo_fuel m)
+          (mo_wire m) (mo_c04 m) (mo_c18 m) (mo_c07 m) (mo_c18w m) (mo_fuel m)
   | HDrop j =>
     mkmon (mo_now m) (set_over j (mo_calls m)) (mo_started m) (mo_ended m) (mo_tainted m)
-          (mo_c04 m) (mo_c18 m) (mo_c07 m) (mo_fuel m)
+          (mo_wire m) (mo_c04 m) (mo_c18 m) (mo_c07 m) (mo_c18w m) (mo_fuel m)
   | DropDispatch _ | DropServer _ =>
     mkmon (mo_now m) (mo_calls m) (mo_started m) (mo_ended m) true
-          (mo_c04 m) (mo_c18 m) (mo_c07 m) (mo_fuel m)
+          (mo_wire m) (mo_c04 m) (mo_c18 m) (mo_c07 m) (mo_c18w m) (mo_fuel m)
   | Advance dt =>
     mkmon (mo_now m + dt) (mo_calls m) (mo_started m) (mo_ended m) (mo_tainted m)
-          (mo_c04 m) (mo_c18 m) (mo_c07 m) (mo_fuel m)
+          (mo_wire m) (mo_c04 m) (mo_c18 m) (mo_c07 m) (mo_c18w m) (mo_fuel m)
   | _ => m
   end%N.
+
+(* C18 on the wire, hop by hop: a request carries the trace number and the deadline of a head
+   call with its body and a span id of its own (drawn for this request: named after its id); a
+   cancellation carries exactly the trace number and span id of the request it cancels *)
+Definition mon_wire (i : nat) (m : mon) (w : wmsg) : mon :=
+  match w with
+  | WReq id dl tr sid body =>
+    mkmon (mo_now m) (mo_calls m) (mo_started m) (mo_ended m) (mo_tainted m)
+          ((i, id, tr, sid) :: mo_wire m) (mo_c04 m) (mo_c18 m) (mo_c07 m)
+          (mo_c18w m && N.eqb sid id
+           && existsb (fun h => N.eqb (hc_body h) body && N.eqb (hc_tr h) tr && N.eqb (hc_dl h) dl)
+                      (mo_calls m))
+          (mo_fuel m)
+  | WCancel id tr sid =>
+    mkmon (mo_now m) (mo_calls m) (mo_started m) (mo_ended m) (mo_tainted m) (mo_wire m)
+          (mo_c04 m) (mo_c18 m) (mo_c07 m)
+          (mo_c18w m && existsb (fun p => let '(i', id', tr', sid') := p in
+                                          Nat.eqb i i' && N.eqb id id' && N.eqb tr tr' && N.eqb sid sid')
+                                (mo_wire m))
+          (mo_fuel m)
+  end.
 
 (* one observation *)
 Definition mon_obs (m : mon) (e : cobs) : mon :=
   match e with
   | KCall j (Client.CDone _) =>
     mkmon (mo_now m) (set_over j (mo_calls m)) (mo_started m) (mo_ended m) (mo_tainted m)
-          (mo_c04 m) (mo_c18 m) (mo_c07 m) (mo_fuel m)
+          (mo_wire m) (mo_c04 m) (mo_c18 m) (mo_c07 m) (mo_c18w m) (mo_fuel m)
   | KYield _ _ _ dl tr body =>
     (* C18 / C07: the request yielded on ANY node carries the trace id, the sampling decision
        and the deadline of a head call with that body *)
-    mkmon (mo_now m) (mo_calls m) (mo_started m) (mo_ended m) (mo_tainted m) (mo_c04 m)
+    mkmon (mo_now m) (mo_calls m) (mo_started m) (mo_ended m) (mo_tainted m) (mo_wire m) (mo_c04 m)
           (mo_c18 m && existsb (fun h => N.eqb (hc_body h) body && N.eqb (hc_tr h) tr) (mo_calls m))
           (mo_c07 m && existsb (fun h => N.eqb (hc_body h) body && N.eqb (hc_dl h) dl) (mo_calls m))
-          (mo_fuel m)
+          (mo_c18w m) (mo_fuel m)
+  | KWire i l => fold_left (mon_wire i) l m
   | KHStart i k =>
     mkmon (mo_now m) (mo_calls m) ((i, k) :: mo_started m) (mo_ended m) (mo_tainted m)
-          (mo_c04 m) (mo_c18 m) (mo_c07 m) (mo_fuel m)
+          (mo_wire m) (mo_c04 m) (mo_c18 m) (mo_c07 m) (mo_c18w m) (mo_fuel m)
   | KHDone i k _ | KHDropped i k =>
     mkmon (mo_now m) (mo_calls m) (mo_started m) ((i, k) :: mo_ended m) (mo_tainted m)
-          (mo_c04 m) (mo_c18 m) (mo_c07 m) (mo_fuel m)
+          (mo_wire m) (mo_c04 m) (mo_c18 m) (mo_c07 m) (mo_c18w m) (mo_fuel m)
   | KDisp _ (Client.DReady _) | KStream _ KEnd | KStream _ (KErr _) =>
     mkmon (mo_now m) (mo_calls m) (mo_started m) (mo_ended m) true
-          (mo_c04 m) (mo_c18 m) (mo_c07 m) (mo_fuel m)
+          (mo_wire m) (mo_c04 m) (mo_c18 m) (mo_c07 m) (mo_c18w m) (mo_fuel m)
   | KDisp _ Client.DFuel | KStream _ KFuel | KRounds | KOracle _ | KPanic =>
     mkmon (mo_now m) (mo_calls m) (mo_started m) (mo_ended m) true
-          (mo_c04 m) (mo_c18 m) (mo_c07 m) false
+          (mo_wire m) (mo_c04 m) (mo_c18 m) (mo_c07 m) (mo_c18w m) false
   | _ => m
   end.
 
@@ -644,10 +689,10 @@ Definition gauges_zero (l : list cobs) : bool :=
    chain, every handler that started has ended and no server tracks anything *)
 Definition mon_settled (m : mon) (l : list cobs) : mon :=
   let owed := negb (mo_tainted m) && forallb hc_over (mo_calls m) in
-  mkmon (mo_now m) (mo_calls m) (mo_started m) (mo_ended m) (mo_tainted m)
+  mkmon (mo_now m) (mo_calls m) (mo_started m) (mo_ended m) (mo_tainted m) (mo_wire m)
         (mo_c04 m && (negb owed
                       || (forallb (fun p => memp p (mo_ended m)) (mo_started m) && gauges_zero l)))
-        (mo_c18 m) (mo_c07 m) (mo_fuel m).
+        (mo_c18 m) (mo_c07 m) (mo_c18w m) (mo_fuel m).
 
 Definition mon_step (m : mon) (o : cop) (l : list cobs) : mon :=
   let m1 := fold_left mon_obs l (mon_op m o) in
@@ -666,6 +711,8 @@ Definition c18c_ok (d : nat) (ops : list cop) (tr : list (list cobs)) : bool :=
   match mon_run mon0 ops tr with Some m => mo_c18 m | None => false end.
 Definition c07c_ok (d : nat) (ops : list cop) (tr : list (list cobs)) : bool :=
   match mon_run mon0 ops tr with Some m => mo_c07 m | None => false end.
+Definition c18w_ok (d : nat) (ops : list cop) (tr : list (list cobs)) : bool :=
+  match mon_run mon0 ops tr with Some m => mo_c18w m | None => false end.
 (* no poll ran out of fuel, no SettleAll out of rounds, the timer oracle never disagreed *)
 Definition cfuel_ok (d : nat) (ops : list cop) (tr : list (list cobs)) : bool :=
   match mon_run mon0 ops tr with Some m => mo_fuel m | None => false end.
